@@ -33,6 +33,13 @@ func verifFInv(a ELEMTYPE) ELEMTYPE    { var r ELEMTYPE; verifE(&r).Inverse(veri
 func verifFConst(v int) ELEMTYPE       { var r ELEMTYPE; verifE(&r).SetInt64(int64(v)); return r }
 func verifFEq(a, b ELEMTYPE) bool      { return verifE(&a).Equal(verifE(&b)) }
 func verifFIsZero(a ELEMTYPE) bool     { return verifE(&a).IsZero() }
+func verifFToU64(a ELEMTYPE) (uint64, bool) {
+	e := verifE(&a)
+	if !e.IsUint64() {
+		return 0, false
+	}
+	return e.Uint64(), true
+}
 
 func verifParseRatE(s string) (*big.Rat, bool) {
 	s = strings.TrimSpace(s)
